@@ -1,4 +1,5 @@
 import Tumfl.Inst.StrWrite
+import Tumfl.Theory.WrapReads
 /-!
 # C06  Any string value is written as a literal that reads back identically
 
@@ -6,7 +7,10 @@ import Tumfl.Inst.StrWrite
 quoted literal - the value mapped through `escapeChar` between two quotes - or a long bracket whose level is `findLevel`.
 The theorems say that the *reference* Lua reader (`Spec.strBody` / `Spec.longBody`, written from llex.c) reads either
 form back to exactly the value, for every value (`List Char`: all Unicode scalar values) and whatever follows.
-Not covered by a theorem (checked by the oracle streams only): the `\z` line wrapping of `_string_ident`.
+`C06_wrapped`: when the layout pass `_string_ident` breaks a quoted literal that is wider than the line into parts ending in `\z`, the text
+that results - parts joined by a line break and any indentation of blanks or tabs - is still read back by the reference reader to exactly the value:
+no cut falls inside an escape sequence (`escapePositions` marks exactly the interiors of the escapes `escapeChar` writes) and no cut is followed by a
+blank of the value (which `\z` would swallow).
 -/
 namespace Tumfl.Props
 open Tumfl.Model Tumfl.Theory Tumfl.Inst
@@ -37,6 +41,13 @@ theorem C06_forms (sty : Style) (v : List Char) :
     split
     · exact ⟨'\'', Or.inr rfl, rfl⟩
     · exact ⟨'"', Or.inl rfl, rfl⟩
+
+/-- the `\z` wrapping of a quoted literal keeps its value, for every style, indentation level and fill of blanks/tabs after each break -/
+theorem C06_wrapped (sty : Style) (quote : Char) (hq : quote = '"' ∨ quote = '\'') (v : List Char) (ind : Int) (ps : Pieces)
+    (h : stringIdent (quote :: v.flatMap (escapeChar quote) ++ [quote]) ind sty = .ok ps)
+    (fill : Nat → List Char) (hfill : ∀ i, ∀ ch ∈ fill i, ch = ' ' ∨ ch = '\t') :
+    IsQuotedLit (wrappedText ps fill) (v.map fun c => Spec.SUnit.ch c.toNat) :=
+  wrap_reads sty quote hq v ind ps h fill hfill
 
 def demoStyle : Style where
   statementSeparator := ['\n']
